@@ -18,9 +18,36 @@ from common import nets
 ID = 'C15'
 N = {'quick': 420, 'thorough': 9000}
 LEAN_MODULES = ['GnpyProofs.Props.C15']
-THEOREMS = []
-RULE = ''
-MODEL_SCOPE = ''
+THEOREMS = [f'Gnpy.Slots.{t}' for t in (
+    'slots_roundtrip', 'frequency_roundtrip', 'bitmap_length', 'usable_iff_in_common_band', 'inBands_iff_frequency',
+    'align_index_unique', 'align_preserves_occupancy', 'oms_partition', 'reversed_endpoints', 'reversed_involution',
+    'bitmap_length_fails_old', 'insert_right_dup_old', 'createOmsBitmap_spec', 'bandCells_spec', 'insertLeft_spec',
+    'insertRight_spec', 'alignOne_spec', 'alignGrids_spec', 'nodup_intRange')]
+PARTIAL = ['oms_partition is stated on the chain abstraction: the walk over the DiGraph that cuts the network into line '
+           'systems (ROADM, line elements, ROADM) is not modelled; "each line element belongs to exactly one OMS" follows '
+           'from the theorem when each line element lies in exactly one line system, which the monitor checks on the '
+           'real network object for every generated network (partition, adjacency along the route, back references)',
+           'the common band of an OMS (find_common_range) is modelled and under correspondence, but the theorem '
+           'usable_iff_in_common_band takes the band list as given; that find_common_range returns the set-theoretic '
+           'intersection is checked by the monitor with exact integer probes between all band edges']
+RULE = ('one PRNG; (a) 40 %: generated networks of 2-4 (thorough: up to 6) ROADMs, line or ring, every OMS with its own '
+        'amplifier profile from the multiband library (C, C medium, L, reduced C band, three C+L multiband models), user '
+        'amplifier models with explicit band edges (12 % of them off the 6.25 GHz grid), mixed models inside one OMS, '
+        'Fused elements, one direction missing (8 %), designed by designed_network, then build_oms_list; (b) 25 %: 0-6 '
+        'random maps of different extents/guard bands/contents through align_grids; (c) 35 %: find_common_range, '
+        'create_oms_bitmap (incl. touching bands, bands outside the range, no band), Bitmap.__init__ on four grids (incl. '
+        'wrong length), insert_left/right, index conversions. Corpus: the shipped multiband example and the shipped mesh '
+        'example through the same path, the F3 witness. A network case is non-trivial when its OMS have >= 2 different '
+        'amplifier band layouts; an alignment case when the maps have >= 2 different extents; unit cases always')
+MODEL_SCOPE = ('modelled (GnpyModel/Slots.lean): frequency_to_n, nvalue_to_frequency, mvalue_to_slots, slots_to_m, m_to_freq, '
+               'Bitmap.__init__/insert_left/insert_right, align_grids, find_common_range (f_min/f_max only; spacing plays '
+               'no role for the map), create_oms_bitmap, find_network_freq_range, reversed_oms, build_oms_list on the '
+               'chain abstraction (list of uids between two ROADMs + the bands of its amplifiers). Integer Hz. Not '
+               'modelled: the graph walk of build_oms_list (the harness walks the DiGraph itself, in the same '
+               'construction order, and hands the line systems to the model; the el_id_lists are then compared '
+               'exactly), network design (networks whose design fails are counted and skipped). Monitor: a slot is usable '
+               'iff its centre frequency 193.1 THz + n*6.25 GHz lies in a band of every amplifier of the OMS (SI band when '
+               'the OMS has no amplifier), evaluated with exact integers from the amplifiers\' own f_min/f_max.')
 
 GRID = 6250000000
 ANCHOR = 193100000000000
